@@ -235,6 +235,39 @@ Section TrapMap.
           end
       end.
 
+  (** ** BaseRegister.__init__(qubits, layout=L, trap_ids=ids) for Register /
+      Register3D: [_validate_layout].  The register keeps the coordinates as
+      given (not rounded) and compares them with [!=] against the layout's
+      rounded traps; [trap_coords[trap_id]] is numpy indexing (a negative id
+      counts from the end, an id past the end raises IndexError). *)
+  Definition pyindex {A} (l : list A) (i : Z) : option A :=
+    if i <? 0 then znth l (i + zlen l) else znth l i.
+
+  Fixpoint validate_pairs (S : list coord) (l : list (coord * Z)) : option err :=
+    match l with
+    | [] => None
+    | (c, i) :: r =>
+        match pyindex S i with
+        | None => Some EIndex
+        | Some t => if cne_any c t then Some EValue else validate_pairs S r
+        end
+    end.
+
+  Definition register_on_layout (L : layout) (qubits : list (Z * coord)) (ids : list Z) : res register :=
+    match qubits with
+    | [] => Err EValue
+    | q0 :: _ =>
+        let cs := map snd qubits in
+        if negb (same_len cs) then Err EValue            (* np.vstack of ragged rows *)
+        else if negb (ldim L =? zlen (snd q0)) then Err EValue
+        else if zhas_dup ids then Err EValue
+        else if negb (zlen ids =? zlen qubits) then Err EValue
+        else match validate_pairs (lsorted L) (combine cs ids) with
+             | Some e => Err e
+             | None => Ok (mkReg (ldim L) qubits ids)
+             end
+    end.
+
   (** ** MappableRegister *)
   Definition mappable_new (L : layout) (decl : list Z) : res (list Z) :=
     if n_traps L <? zlen decl then Err EValue else Ok decl.
@@ -341,6 +374,7 @@ Definition Fsorting_order := sorting_order float f_lt f_round6.
 Definition Ftraps_new := traps_new float f_lt f_eq f_round6.
 Definition Flookup := lookup float f_eq f_round6.
 Definition Fdefine_register := define_register float f_eq.
+Definition Fregister_on_layout := register_on_layout float f_eq.
 Definition Fmappable_new := mappable_new float.
 Definition Fbuild_register := build_register float f_eq.
 Definition Fwmap_new := wmap_new float f_lt f_eq f_round6 float f_wok.
@@ -398,7 +432,9 @@ Record tcase := mkCase {
   t_weights2 : list float;
   t_wpos : list (list float);       (* qubit positions for get_qubit_weight_map *)
   t_ldm : list (Z * float);         (* A.define_detuning_map({trap: w}) *)
-  t_rdm : list (Z * float)          (* reg.define_detuning_map({qid: w}) *)
+  t_rdm : list (Z * float);         (* reg.define_detuning_map({qid: w}) *)
+  t_direct : list (Z * list float); (* Register({qid: coord}, layout=A, trap_ids=dids) *)
+  t_dids : list Z
 }.
 
 Definition opt_reg_coords (r : res (register float)) : list (list float) :=
@@ -436,7 +472,8 @@ Definition run_case (c : tcase) : sv :=
        (* static_hash() = sha256 of [layout_hash_input] / [wmap_hash_input],
           evaluated by the harness on the implementation's own values *)
        SB true;
-       SB true ].
+       SB true;
+       sv_res sv_register (rbind A (fun L => Fregister_on_layout L (t_direct c) (t_dids c))) ].
 
 (** position of the first differing component (for debugging a mismatch) *)
 Definition first_diff (a b : sv) : Z :=
@@ -450,3 +487,69 @@ Definition first_diff (a b : sv) : Z :=
          end) 0 x y
   | _, _ => if sv_eqb a b then -1 else 0
   end.
+
+(** * The exact instance: integer coordinates on a decimal sub-grid.
+    A coordinate [z] stands for [z / sub] micro-units (i.e. [z * 1e-6 / sub]
+    um); rounding to 6 decimals is rounding to a multiple of [sub], half to
+    even (what np.round does in exact arithmetic). *)
+Definition zgrid_rnd (sub z : Z) : Z :=
+  let q := z / sub in
+  let r := z mod sub in
+  sub * (if 2 * r <? sub then q
+         else if sub <? 2 * r then q + 1
+         else if Z.even q then q else q + 1).
+
+(** within the absolute tolerance 1e-6 (no relative term) *)
+Definition zgrid_close (sub a b : Z) : bool := Z.abs (a - b) <=? sub.
+
+(** * Witness evaluators for the refuted statements (IEEE instance) *)
+
+(** define a register from [ids] on the layout built from [l], then look its
+    coordinates up again *)
+Definition F_roundtrip (l : list (list float)) (ids : list Z) : option (list Z) :=
+  match Ftraps_new l with
+  | Ok L =>
+      match Fdefine_register L ids [] with
+      | Ok R => match Flookup L (map snd (rqubits R)) with Ok got => Some got | Err _ => None end
+      | Err _ => None
+      end
+  | Err _ => None
+  end.
+
+Definition F_layouts_equal (l l' : list (list float)) : option bool :=
+  match Ftraps_new l, Ftraps_new l' with
+  | Ok a, Ok b => Some (Flayout_eqb a b)
+  | _, _ => None
+  end.
+
+(** the sorted rounded coordinates of two layouts are pairwise [==] *)
+Definition F_same_coordinates (l l' : list (list float)) : bool :=
+  match Ftraps_new l, Ftraps_new l' with
+  | Ok a, Ok b =>
+      (Nat.eqb (length (lsorted a)) (length (lsorted b)))
+      && forallb (fun p => Fceq (fst p) (snd p)) (combine (lsorted a) (lsorted b))
+  | _, _ => false
+  end.
+
+Definition F_wmaps_equal (cs : list (list float)) (ws : list float)
+                         (cs' : list (list float)) (ws' : list float) : option bool :=
+  match Fwmap_new cs ws, Fwmap_new cs' ws' with
+  | Ok a, Ok b => Some (Fwmap_eqb a b)
+  | _, _ => None
+  end.
+
+Definition F_weight_at (cs : list (list float)) (ws : list float) (pos : list float) : option float :=
+  match Fwmap_new cs ws with
+  | Ok m => Some (Fqubit_weight m pos)
+  | Err _ => None
+  end.
+
+Definition w_near_tie : list (list float) :=
+  [[zero; zero]; [zero; 0x1.ad7f29abcaf48p-22]; [0x1.4p+2; 0x1.4p+2]]%float.   (* (0,0) (0,4e-7) (5,5) *)
+Definition w_negzero_a : list (list float) :=
+  [[(-0x1.12e0be826d695p-30)%float; zero]; [0x1.4p+2; 0x1.4p+2]%float].         (* (-1e-9,0) (5,5) *)
+Definition w_negzero_b : list (list float) :=
+  [[zero; zero]; [0x1.4p+2; 0x1.4p+2]]%float.                                    (* (0,0) (5,5) *)
+Definition w_rtol_traps : list (list float) :=
+  [[0x1.9p+5; zero]; [0x1.90009d495182bp+5; zero]]%float.                        (* (50,0) (50.0003,0) *)
+Definition w_rtol_weights : list float := [0x1p-1; 0x1.6666666666666p-1]%float.  (* 0.5 0.7 *)
